@@ -598,6 +598,9 @@ func (c *wouldApplyContext) wouldApplyLookupContext1(data tables.SequenceContext
 
 func (c *wouldApplyContext) wouldApplyLookupContext2(data tables.SequenceContextFormat2, index int, glyphID GID) bool {
 	class := getClass(data.ClassDef, gID(glyphID))
+	if int(class) >= len(data.ClassSeqRuleSet) { // class is not sanitized at load time
+		return false
+	}
 	ruleSet := data.ClassSeqRuleSet[class]
 	return c.wouldApplyRuleSet(ruleSet, matchClass(data.ClassDef))
 }
@@ -635,6 +638,9 @@ func (c *wouldApplyContext) wouldApplyLookupChainedContext1(data tables.ChainedS
 
 func (c *wouldApplyContext) wouldApplyLookupChainedContext2(data tables.ChainedSequenceContextFormat2, index int, glyphID GID) bool {
 	class := getClass(data.InputClassDef, gID(glyphID))
+	if int(class) >= len(data.ChainedClassSeqRuleSet) { // class is not sanitized at load time
+		return false
+	}
 	ruleSet := data.ChainedClassSeqRuleSet[class]
 	return c.wouldApplyChainRuleSet(ruleSet, matchClass(data.InputClassDef))
 }
